@@ -700,6 +700,12 @@ def _thresholds(cur, specs):
             th = float(sp[1]) * av[0]
         elif kind == 'above':
             th = av[0] * 2.0 + 1.0
+        elif kind == 'below':        # the neighbouring number just below some |a_i|: that sample exceeds, by one ulp (item 26)
+            r = min(int(sp[1]), len(av) - 1)
+            th = float(np.nextafter(np.float32(av[r]), np.float32(0))) if cur.dtype == np.float32 else float(np.nextafter(av[r], 0.0))
+        elif kind == 'rel':          # within 1e-3 .. 1e-12 (relative) of some |a_i|, either side
+            r = min(int(sp[1]), len(av) - 1)
+            th = av[r] * (1.0 + float(sp[2]))
         else:
             th = float(sp[1])
         th = float(th)
@@ -743,13 +749,33 @@ def _other_record(x):
     return y
 
 
+def _other_for(case, x):
+    """The second input B of f(A); f(B); f(A): a permutation of A (same multiset), or the case's own second draw - same shape or
+    another shape - brought to A's dtype."""
+    other = case.get('other')
+    if other is None:
+        return _other_record(x)
+    other = np.asarray(other)
+    if x.dtype.kind == 'f':
+        y = np.array(other, dtype=x.dtype)
+    else:       # integer / complex records: A's own numbers re-ordered, at the length of the second draw
+        y = np.array(np.resize(_other_record(x), len(other)))
+    if y.shape == x.shape and np.array_equal(y, x):
+        y = _other_record(x)
+    return y
+
+
 def _apply_op(eqsig, ctx, asig, op):
     """One step of an object's history; returns the object to continue with. Failures of the history operations themselves
     are not C10's business."""
     kind = op['op']
     try:
         if kind == 'read':
-            getattr(asig, op['what'])
+            if op['what'] == 'swtf':     # the Stockwell memo, filled the way eqsig.stockwell.plot_stock fills it
+                if not hasattr(asig, 'swtf') and asig.npts <= 256:
+                    asig.swtf = eqsig.stockwell.transform(asig.values)
+            else:
+                getattr(asig, op['what'])
         elif kind == 'regen':       # explicit regenerations with non-default options
             w = op['what']
             if w == 'fa':
@@ -820,6 +846,48 @@ def _apply_op(eqsig, ctx, asig, op):
                 asig = cl.signal_by_index(int(op['index']))
             else:                        # round trip through the Fourier spectrum: a complex-valued record
                 asig = eqsig.fns.frequency.fas2signal(asig.fa_spectrum, asig.dt, stype='acc')
+        elif kind == 'assign':           # assignment through a public attribute name after construction (checklist item 23)
+            v = op['value']
+            form = op.get('form', 'scalar')
+            if form == 'list':
+                v = [float(q) for q in np.asarray(v).ravel()]
+            elif form == 'intlist':
+                v = [int(q) for q in np.asarray(v).ravel()]
+            elif form == 'tuple':
+                v = tuple(float(q) for q in np.asarray(v).ravel())
+            elif form == 'array':
+                v = np.array(np.asarray(v, dtype=float).ravel())
+            setattr(asig, op['what'], v)
+            if op.get('then_read'):      # the assigned value is used through an entry point of the object
+                getattr(asig, op['then_read'])
+        elif kind == 'reject':           # operations the clean code refuses (item 24): the object is judged afterwards
+            how = op['how']
+            n = asig.npts
+            if how == 'add_series_short':
+                asig.add_series(np.ones(max(1, n - int(op.get('k', 1)))))
+            elif how == 'add_series_long':
+                asig.add_series(np.ones(n + int(op.get('k', 1))))
+            elif how == 'add_series_list_long':
+                asig.add_series([1.0] * (n + int(op.get('k', 1))))
+            elif how == 'add_signal_dt':
+                asig.add_signal(eqsig.AccSignal(np.ones(n), float(asig.dt) * 2.0))
+            elif how == 'add_signal_len':
+                asig.add_signal(eqsig.AccSignal(np.ones(n + int(op.get('k', 1))), asig.dt))
+            elif how == 'add_signal_type':
+                asig.add_signal(np.ones(n))
+            elif how == 'butter_above_nyquist':
+                asig.butter_pass((0.1 / float(asig.dt), 2.0 / float(asig.dt)))
+            elif how == 'butter_reversed':
+                asig.butter_pass((0.4 / float(asig.dt), -1.0))
+            elif how == 'reset_ragged':
+                asig.reset_values([[1.0, 2.0], [3.0]])
+            elif how == 'remove_poly_negative':
+                asig.remove_poly(-1)
+            else:
+                asig.set_zero_residual_velocity(timezone='not-a-zone')
+        elif kind == 'repair_inplace':   # the caller cleans non-finite samples in the array handed out by .values
+            v = asig.values
+            v[~np.isfinite(v)] = float(op.get('fill', 0.0))
         elif kind == 'twin':             # continue with a twin built from this object's values; then edit the original
             twin = eqsig.AccSignal(asig.values, asig.dt)
             try:
@@ -829,10 +897,19 @@ def _apply_op(eqsig, ctx, asig, op):
             asig = twin
         else:
             raise ValueError(kind)
-        ctx.observe('history-op:%s' % kind)
+        ctx.observe('history-op:%s' % _op_name(op))
     except Exception as e:
-        ctx.observe('history-op raised (not judged): %s %s' % (kind, type(e).__name__))
+        ctx.observe('history-op raised (not judged): %s %s' % (_op_name(op), type(e).__name__))
     return asig
+
+
+def _op_name(op):
+    kind = op['op']
+    if kind == 'assign':
+        return 'assign(%s)' % op['what']
+    if kind == 'reject':
+        return 'reject(%s)' % op['how']
+    return kind
 
 
 def _stats_agree(eqsig, ctx, asig):
@@ -929,7 +1006,68 @@ def _repeat_relation(ctx, case, what, f_first, f_other):
          % (held, _show(r1b), _show(r1)))
 
 
+def _proto_copy(asig, how):
+    """The Python object protocols on a signal: copy.copy, copy.deepcopy, a pickle round trip (every protocol number)."""
+    import copy
+    import pickle
+    if how == 'copy':
+        return copy.copy(asig)
+    if how == 'deepcopy':
+        return copy.deepcopy(asig)
+    return pickle.loads(pickle.dumps(asig, protocol=int(how[len('pickle'):])))
+
+
+STEP_CLAUSE = {'assign': 'rel.after-assignment==fresh', 'refuse': 'rel.after-refused-op==fresh'}
+
+
+def _run_protocol(eqsig, ctx, case):
+    """Checklist items 22-24: an AccSignal (plain or a Cluster member) in some cache state is copied with copy.copy /
+    copy.deepcopy / a pickle round trip; reads, mutators, attribute assignments and refused operations are then applied to the
+    copy and to the original in the order the case prescribes. After every step the monitored calls run on the object just
+    touched, on the other one, and on the first again (shuffled, with repeats); the post-condition monitors judge each call
+    against the values of ITS object at call entry and the driver compares it with a fresh object of the same values."""
+    fracs = [(float(f[0]), float(f[1])) for f in case['fracs']]
+    measures = list(case.get('measures') or [])
+    dt = float(case['dt'])
+    try:
+        a = _build(eqsig, ctx, case)
+    except Exception as e:
+        ctx.exception('sigdur.arias.start/end==definition', {'case': case, 'where': 'AccSignal construction'}, e)
+        return
+    how = case['proto']
+    try:
+        b = _proto_copy(a, how)
+    except Exception as e:
+        ctx.observe('protocol %s raised %s (not judged)' % (how, type(e).__name__))
+        return
+    ctx.observe('protocol:%s' % ('pickle' if how.startswith('pickle') else how))
+    objs = {'a': a, 'b': b}
+    seed = int(case.get('order_seed', 0))
+    for k, step in enumerate(case.get('steps') or []):
+        tgt = step['obj']
+        oth = 'b' if tgt == 'a' else 'a'
+        for op in step.get('ops') or []:
+            objs[tgt] = _apply_op(eqsig, ctx, objs[tgt], op)
+        if how == 'copy':
+            # a shallow copy shares the value buffer by definition: judged only once a rebinding operation separated the two
+            try:
+                shared = np.shares_memory(np.asarray(objs['a'].values), np.asarray(objs['b'].values))
+            except Exception:
+                shared = True
+            if shared:
+                ctx.observe('protocol copy: value buffer still shared (not judged)')
+                continue
+        clause = STEP_CLAUSE.get(step.get('kind'), 'rel.copy-protocol==fresh')
+        for j, name in enumerate((tgt, oth, tgt)):
+            _object_block(eqsig, ctx, case, objs[name], dt, fracs, measures, full=False, compare_fresh=True,
+                          order_seed=seed + 7 * k + j, clause=clause,
+                          label=' (%s, step %d on %s, object %s)' % (how, k, tgt, name))
+
+
 def _run_case(eqsig, ctx, case):
+    if case.get('kind') == 'protocol':
+        _run_protocol(eqsig, ctx, case)
+        return
     im = eqsig.im
     x = _layout(np.asarray(case['values']), case.get('layout'))     # ONE argument object reused by all array-level calls
     dt = float(case['dt'])
@@ -992,11 +1130,18 @@ def _run_case(eqsig, ctx, case):
                      '%r -> %r, expected shift of %d samples (dt=%r)' % (pair, p4, k_pad, dt))
         _nested(ctx, case, 'calc_sig_dur_vals', fracs, vals_pairs)
         if case.get('repeat'):
-            s, e = fracs[0]
-            x2 = _other_record(x)
-            _repeat_relation(ctx, case, 'calc_sig_dur_vals(start=%r,end=%r)' % (s, e),
-                             lambda: im.calc_sig_dur_vals(xc, dt_arg, start=s, end=e, se=True),
-                             lambda: im.calc_sig_dur_vals(x2, dt_arg, start=s, end=e, se=True))
+            # f(A); f(B); f(A): B a permutation of A, another draw of the same shape or of another shape (item 25), at the
+            # default and at non-default fractions, both se forms, the deprecated alias as well
+            s, e = fracs[int(case.get('repeat_j', 0)) % len(fracs)]
+            se_r = bool(case.get('repeat_se', True))
+            x2 = _other_for(case, x)
+            _repeat_relation(ctx, case, 'calc_sig_dur_vals(start=%r,end=%r,se=%r)' % (s, e, se_r),
+                             lambda: im.calc_sig_dur_vals(xc, dt_arg, start=s, end=e, se=se_r),
+                             lambda: im.calc_sig_dur_vals(x2, dt_arg, start=s, end=e, se=se_r))
+            if case.get('other') is not None:
+                _repeat_relation(ctx, case, 'calc_significant_duration(start=%r,end=%r)' % (s, e),
+                                 lambda: im.calc_significant_duration(xc, dt_arg, s, e),
+                                 lambda: im.calc_significant_duration(x2, dt_arg, s, e))
 
     # ------------------------------------------------------------------------------------------ object level
     if not case.get('object_level', True):
@@ -1015,7 +1160,8 @@ def _run_case(eqsig, ctx, case):
                       order_seed=int(case.get('order_seed', 0)) + r)
 
 
-def _object_block(eqsig, ctx, case, asig, dt, fracs, measures, full, compare_fresh, order_seed=None):
+def _object_block(eqsig, ctx, case, asig, dt, fracs, measures, full, compare_fresh, order_seed=None, clause='rel.history==fresh',
+                  label=''):
     """The monitored object-level calls on the object's CURRENT values (+ relations). full=False: the calls of a later
     round, in a shuffled order with repeats, each compared with a fresh object of the same values."""
     im = eqsig.im
@@ -1048,7 +1194,7 @@ def _object_block(eqsig, ctx, case, asig, dt, fracs, measures, full, compare_fre
             what, f = calls[int(k)]
             r = _call(lambda: f(asig))
             rf = _call(lambda: f(fresh))
-            _rel(ctx, _same(r, rf), 'rel.history==fresh', case, what + ' (later round)',
+            _rel(ctx, _same(r, rf), clause, case, what + (label or ' (later round)'),
                  'object with history gave %r, fresh object of the same values %r' % (_show(r), _show(rf)))
         return
 
@@ -1082,7 +1228,7 @@ def _object_block(eqsig, ctx, case, asig, dt, fracs, measures, full, compare_fre
             if fresh is not None:
                 pf = _call(lambda: im.calc_sig_dur(fresh, start=s, end=e, im=imf, se=True))
                 sf = _call(lambda: im.calc_sig_dur(fresh, start=s, end=e, im=imf))
-                _rel(ctx, _same(pair, pf) and _same(scal, sf), 'rel.history==fresh', case, what,
+                _rel(ctx, _same(pair, pf) and _same(scal, sf), clause, case, what,
                      'object with history gave %r / %r, fresh object of the same values %r / %r'
                      % (_show(pair), _show(scal), _show(pf), _show(sf)))
             if not _pair_ok(pair):
@@ -1118,7 +1264,7 @@ def _object_block(eqsig, ctx, case, asig, dt, fracs, measures, full, compare_fre
         if fresh is not None:
             pf = _call(lambda: im.calc_brac_dur(fresh, th, se=True))
             sf = _call(lambda: im.calc_brac_dur(fresh, th))
-            _rel(ctx, _same(pair, pf) and _same(scal, sf), 'rel.history==fresh', case, what,
+            _rel(ctx, _same(pair, pf) and _same(scal, sf), clause, case, what,
                  'object with history gave %r / %r, fresh object of the same values %r / %r'
                  % (_show(pair), _show(scal), _show(pf), _show(sf)))
         if scaled is not None and cur_float and cur.dtype == np.float64:
@@ -1159,14 +1305,23 @@ def _object_block(eqsig, ctx, case, asig, dt, fracs, measures, full, compare_fre
              'public observables changed: %s' % bad)
     # process-wide state: another object of the same shape in between, first result re-checked afterwards
     if case.get('repeat') and len(ths) > 1:
-        other = eqsig.AccSignal(_other_record(cur), dt_obj)
-        s, e = fracs[0]
-        th = ths[1]
+        other = eqsig.AccSignal(_other_for(case, cur), dt_obj)
+        s, e = fracs[int(case.get('repeat_j', 0)) % len(fracs)]
+        se_r = bool(case.get('repeat_se', True))
+        th = ths[(1 + int(case.get('repeat_j', 0))) % len(ths)]
         if not case.get('brac_only'):
-            _repeat_relation(ctx, case, 'calc_sig_dur(start=%r,end=%r)' % (s, e),
-                             lambda: im.calc_sig_dur(asig, start=s, end=e, se=True), lambda: im.calc_sig_dur(other, start=s, end=e, se=True))
-        _repeat_relation(ctx, case, 'calc_brac_dur(threshold=%r)' % th,
-                         lambda: im.calc_brac_dur(asig, th, se=True), lambda: im.calc_brac_dur(other, th, se=True))
+            _repeat_relation(ctx, case, 'calc_sig_dur(start=%r,end=%r,se=%r)' % (s, e, se_r),
+                             lambda: im.calc_sig_dur(asig, start=s, end=e, se=se_r), lambda: im.calc_sig_dur(other, start=s, end=e, se=se_r))
+            if case.get('other') is not None and measures:
+                imf = MEASURES[measures[0]]
+                _repeat_relation(ctx, case, 'calc_sig_dur(im=%s,start=%r,end=%r,se=%r)' % (measures[0], s, e, se_r),
+                                 lambda: im.calc_sig_dur(asig, start=s, end=e, im=imf, se=se_r),
+                                 lambda: im.calc_sig_dur(other, start=s, end=e, im=imf, se=se_r))
+        _repeat_relation(ctx, case, 'calc_brac_dur(threshold=%r,se=%r)' % (th, se_r),
+                         lambda: im.calc_brac_dur(asig, th, se=se_r), lambda: im.calc_brac_dur(other, th, se=se_r))
+        if case.get('other') is not None:
+            _repeat_relation(ctx, case, 'calc_bracketed_duration(threshold=%r)' % th,
+                             lambda: im.calc_bracketed_duration(asig, th), lambda: im.calc_bracketed_duration(other, th))
 
 
 def _show(r):
@@ -1246,6 +1401,43 @@ def gen_fracs(rng, exact_bias):
     return [(float(a), float(b)) for a, b in out]
 
 
+S_EDGE = [1e-12, 1e-9, 1e-6, 1e-4, 1e-3, 2.0 ** -30, 2.0 ** -10]
+E_EDGE = [1 - 1e-12, 1 - 1e-9, 1 - 1e-6, 1 - 1e-4, 1 - 1e-3, 1 - 2.0 ** -53, 1 - 2.0 ** -30, 1 - 2.0 ** -10]
+
+
+def gen_edge_fracs(rng, x, fracs):
+    """Fraction pairs at the edges of 0 < start < end < 1 (checklist item 26): within 1e-3 .. 1e-12 of 0 and of 1, narrow
+    bands, and pairs placed within 1e-3 .. 1e-9 (relative) of the normalised cumulative squares of two samples of this record
+    (either side: a sample just inside / just outside a bound)."""
+    out = []
+    r = rng.random()
+    s_e = float(S_EDGE[int(rng.integers(len(S_EDGE)))])
+    e_e = float(E_EDGE[int(rng.integers(len(E_EDGE)))])
+    if r < 0.3:
+        out.append((s_e, e_e))
+    elif r < 0.45:
+        out.append((s_e, fracs[-1][1]))
+    elif r < 0.6:
+        out.append((fracs[-1][0], e_e))
+    elif r < 0.7:
+        c = float(rng.uniform(0.05, 0.9))
+        out.append((c, c * (1 + 1e-3)) if rng.random() < 0.5 else (c, c + 1e-6))
+    else:
+        xf = np.asarray(x, dtype=float)
+        cum = np.cumsum(xf * xf)
+        if np.isfinite(cum[-1]) and cum[-1] > 0:
+            q = cum / cum[-1]
+            idx = np.flatnonzero((q > 1e-12) & (q < 1 - 1e-9))
+            if len(idx) >= 2:
+                k1, k2 = np.sort(rng.choice(idx, size=2, replace=False))
+                d1 = float(rng.choice([-1.0, 1.0]) * 10.0 ** rng.uniform(-9, -3))
+                d2 = float(rng.choice([-1.0, 1.0]) * 10.0 ** rng.uniform(-9, -3))
+                a, b = float(q[k1] * (1 + d1)), float(q[k2] * (1 + d2))
+                if 0 < a < b < 1:
+                    out.append((a, b))
+    return [(float(a), float(b)) for a, b in out if 0 < a < b < 1]
+
+
 def gen_thr_specs(rng):
     specs = [('zero',), ('between', 0), ('rank', 0), ('rank', 1)]
     specs.append(('rank', int(rng.integers(2, 12))))
@@ -1255,6 +1447,11 @@ def gen_thr_specs(rng):
         specs.append(('above',))
     if rng.random() < 0.3:
         specs.append(('abs', float(abs(rng.normal()))))
+    if rng.random() < 0.35:      # edges of the admissible range (item 26): next to the peak / to a sample, next to zero
+        specs.append(('below', int(rng.integers(0, 4))))
+        specs.append(('rel', int(rng.integers(0, 4)), float(rng.choice([-1.0, 1.0]) * 10.0 ** rng.uniform(-12, -3))))
+        if rng.random() < 0.5:
+            specs.append(('abs', float(rng.choice([5e-324, 1e-300, 2.2250738585072014e-308]))))
     return [list(s) for s in specs]
 
 
@@ -1313,12 +1510,76 @@ def _gen_reads(rng, ops, k, small):
             ops.append({'op': 'calc', 'threshold': float(abs(rng.normal()) * (0.02 if small else 1.0))})
 
 
-def _gen_mutation(rng, ops, n, dt, small, keep_length):
+ASSIGNABLE = ['values', 'values', 'values', 'values', 'dt', 'npts', 'time', 'label', 'response_times', 'smooth_fa_freqs',
+              'smooth_fa_frequencies', 'smooth_freq_range', 'smooth_freq_points']
+REJECTS = ['add_series_short', 'add_series_long', 'add_series_list_long', 'add_signal_dt', 'add_signal_len', 'add_signal_type',
+           'butter_above_nyquist', 'butter_reversed', 'reset_ragged', 'remove_poly_negative', 'bad_timezone']
+
+
+def _gen_assign(rng, n, dt, amp):
+    """setattr through a public name after construction, in every container form the constructor accepts; 1, 2, 3 entries (a
+    2-tuple can be mistaken for a range), the current length, longer, shorter."""
+    what = ASSIGNABLE[int(rng.integers(len(ASSIGNABLE)))]
+    form = ['list', 'tuple', 'array'][int(rng.integers(3))]
+    if what == 'values':
+        m = int(rng.choice([1, 2, 3, n, n + 1, n + 7, 2 * n + 1, max(1, n - 3)]))
+        if rng.random() < 0.2:
+            return {'op': 'assign', 'what': what, 'value': np.round(rng.normal(size=m) * 3), 'form': 'intlist'}
+        return {'op': 'assign', 'what': what, 'value': rng.normal(size=m) * amp, 'form': form}
+    if what == 'dt':
+        return {'op': 'assign', 'what': what, 'value': float(dt) * float(rng.choice([2.0, 0.5, 1.0])), 'form': 'scalar'}
+    if what == 'npts':
+        return {'op': 'assign', 'what': what, 'value': int(n + rng.integers(-3, 6)), 'form': 'scalar'}
+    if what == 'time':
+        return {'op': 'assign', 'what': what, 'value': np.arange(n + 2) * float(dt), 'form': 'array'}
+    if what == 'label':
+        return {'op': 'assign', 'what': what, 'value': 'renamed', 'form': 'scalar'}
+    if what == 'response_times':
+        return {'op': 'assign', 'what': what, 'value': np.sort(rng.uniform(0.1, 2.0, size=int(rng.integers(1, 4)))), 'form': form,
+                'then_read': 's_a' if n <= 400 else None}
+    if what in ('smooth_fa_freqs', 'smooth_fa_frequencies'):
+        return {'op': 'assign', 'what': what, 'value': np.sort(rng.uniform(0.5, 10.0, size=int(rng.integers(1, 4)))), 'form': form,
+                'then_read': 'smooth_fa_spectrum' if n <= 1000 else None}
+    if what == 'smooth_freq_range':
+        return {'op': 'assign', 'what': what, 'value': np.array([0.2, 15.0]), 'form': ['list', 'tuple'][int(rng.integers(2))]}
+    return {'op': 'assign', 'what': what, 'value': int(rng.choice([2, 30])), 'form': 'scalar'}
+
+
+def _gen_reject(rng):
+    return {'op': 'reject', 'how': REJECTS[int(rng.integers(len(REJECTS)))], 'k': int(rng.integers(1, 9))}
+
+
+def _gen_nonfinite(rng, ops, n, amp):
+    """reset_values with a record that contains nan / inf samples (same, shorter or longer than the current one)."""
+    n = max(2, int(n * float(rng.choice([1.0, 1.0, 0.6, 1.7]))))
+    y = rng.normal(size=n) * amp
+    for _ in range(int(rng.integers(1, 4))):
+        y[int(rng.integers(n))] = float(rng.choice([np.nan, np.inf, -np.inf]))
+    ops.append({'op': 'reset_values', 'values': y})
+    return n
+
+
+def _gen_mutation(rng, ops, n, dt, small, keep_length, only=None):
     """One public mutator. n: current length of the object (tracked by the generator); returns the new length."""
     amp = 0.03 if small else 1.0
-    r = int(rng.integers(0, 17))
+    r = int(rng.integers(0, 21)) if only is None else int(only[int(rng.integers(len(only)))])
     if keep_length and r in (1, 2):
         r = 0
+    if r == 17:      # assignment through a public attribute name (item 23)
+        ops.append(_gen_assign(rng, n, dt, amp))
+        return n
+    if r == 18:      # an operation the clean code refuses (item 24)
+        ops.append(_gen_reject(rng))
+        return n
+    if r in (19, 20):    # non-finite record accepted silently, then cleaned in place by the caller (item 24) / silent record
+        if r == 20 and rng.random() < 0.5:
+            ops.append({'op': 'reset_values', 'values': np.zeros(n)})
+            n2 = max(2, int(n * rng.uniform(0.5, 1.5)))
+            ops.append({'op': 'reset_values', 'values': gen.record(rng, n2, allow_const=False)[0] * amp})
+            return n2
+        n = _gen_nonfinite(rng, ops, n, amp)
+        ops.append({'op': 'repair_inplace', 'fill': float(rng.choice([0.0, 1.5 * amp, -amp]))})
+        return n
     if r == 0:
         ops.append({'op': 'reset_values', 'values': gen.record(rng, n, allow_const=False)[0] * amp,
                     'layout': [None, 'stride', 'reversed', 'readonly'][int(rng.integers(4))]})
@@ -1400,6 +1661,91 @@ def gen_history(rng, n, dt, small):
     return ops, rounds
 
 
+WARM_READS = ['fa_spectrum', 'smooth_fa_spectrum', 'velocity', 'displacement', 'pga', 'pgv', 'pgd', 's_a', 'swtf']
+
+
+def _gen_warm(rng, ops, small):
+    """One kind of read that fills a cache of the object (spectra, smoothed spectra, velocity / displacement, peaks, response
+    spectra, Stockwell), a deprecated generate_* call or the duration functions themselves."""
+    r = rng.random()
+    if r < 0.6:
+        ops.append({'op': 'read', 'what': WARM_READS[int(rng.integers(len(WARM_READS)))]})
+    elif r < 0.7:
+        ops.append({'op': 'gen_cumulative_stats'})
+    elif r < 0.8:
+        ops.append({'op': 'gen_duration_stats'})
+    else:
+        ops.append({'op': 'calc', 'threshold': float(abs(rng.normal()) * (0.02 if small else 1.0))})
+
+
+def gen_protocol_case(rng):
+    """Checklist items 22-24 (see _run_protocol)."""
+    n = int(rng.choice([8, 16, 33, 64, 100, 200, 257, 400])) if rng.random() < 0.6 else int(rng.integers(8, 401))
+    x, cls = gen.record(rng, n, allow_const=False)
+    small = rng.random() < 0.45
+    amp = 0.03 if small else 1.0
+    if small:
+        x = x / (np.max(np.abs(x)) or 1.0) * 0.09 * float(rng.uniform(0.2, 1.0))
+    dt = gen.dt(rng)
+    how = ['copy', 'deepcopy', 'pickle0', 'pickle2', 'pickle4', 'pickle5', 'copy', 'deepcopy', 'pickle3', 'pickle1'][int(rng.integers(10))]
+    history = []
+    if rng.random() < 0.25:      # the original is a Cluster member
+        history.append({'op': 'derive', 'how': 'cluster', 'values': rng.normal(size=min(n, 64)) * amp, 'angle': 0.0, 'index': int(rng.integers(2))})
+    for _ in range(int(rng.choice([0, 1, 2, 3], p=[0.2, 0.4, 0.25, 0.15]))):     # cache state at the moment of the copy
+        _gen_warm(rng, history, small)
+    rebind = [0, 1, 2, 3, 4]         # operations that rebind the values (all a shallow copy admits)
+    steps = []
+    length = {'a': n, 'b': n}
+    first = ['a', 'b'][int(rng.integers(2))]
+    for k in range(int(rng.integers(2, 5))):
+        obj = first if k == 0 else ['a', 'b'][int(rng.integers(2))]
+        ops = []
+        kind = ['mutate', 'mutate', 'reads', 'assign', 'refuse', 'calc'][int(rng.integers(6))]
+        if how == 'copy' and k == 0:
+            kind = 'mutate'
+        if kind == 'mutate':
+            if rng.random() < 0.4:
+                _gen_warm(rng, ops, small)
+            length[obj] = _gen_mutation(rng, ops, length[obj], dt, small, False,
+                                        only=rebind if how == 'copy' else list(range(17)))
+            if rng.random() < 0.3:
+                _gen_warm(rng, ops, small)
+        elif kind == 'reads':
+            for _ in range(int(rng.integers(1, 3))):
+                _gen_warm(rng, ops, small)
+        elif kind == 'assign':
+            if rng.random() < 0.3:
+                _gen_warm(rng, ops, small)
+            ops.append(_gen_assign(rng, length[obj], dt, amp))
+        elif kind == 'refuse':
+            if rng.random() < 0.55:
+                ops.append(_gen_reject(rng))
+            else:
+                length[obj] = _gen_nonfinite(rng, ops, length[obj], amp)
+                if rng.random() < 0.75:
+                    ops.append({'op': 'repair_inplace', 'fill': float(rng.choice([0.0, 1.5 * amp, -amp]))})
+        else:
+            _gen_warm(rng, ops, small)
+            ops.append({'op': 'calc', 'threshold': float(abs(rng.normal()) * amp)})
+        steps.append({'obj': obj, 'kind': kind, 'ops': ops})
+    t1 = float(abs(rng.normal()) * amp)
+    case = {'kind': 'protocol', 'cls': how if not how.startswith('pickle') else 'pickle', 'proto': how, 'form': int(rng.integers(4)),
+            'layout': [None, None, 'readonly', 'stride'][int(rng.integers(4))], 'dt_form': ['float', 'np'][int(rng.integers(2))],
+            'container': ['array', 'array', 'list', 'tuple'][int(rng.integers(4))], 'repeat': False,
+            'fracs': [STD_FRACS[0]] + gen_fracs(rng, cls in ('plateau', 'intnoise', 'alt', 'step', 'impulse'))[:2],
+            'measures': [['cumabs'], ['cav'], ['isq_dt']][int(rng.integers(3))] + [NON_MONOTONE[int(rng.integers(4))]],
+            'k_scale': 0, 'factor': None, 'k_pad': 0,
+            'thr_specs': [['zero'], ['abs', t1], ['abs', float(abs(rng.normal()) * amp * 0.3)], ['rank', 0], ['between', 0]],
+            'history': history, 'steps': steps, 'order_seed': int(rng.integers(1 << 30)), 'dt': float(dt), 'values': x}
+    for op in history + [o for st in steps for o in st['ops']]:
+        if op['op'] == 'calc':
+            op['fracs'] = case['fracs'][:2]
+            op['measures'] = case['measures'][:1]
+            op['thresholds'] = [0.0, t1]
+            op.pop('threshold', None)
+    return case
+
+
 def gen_shape(rng, n):
     """Record shapes the statement does not forbid (checklist item 11)."""
     k = int(rng.integers(0, 11))
@@ -1469,12 +1815,14 @@ def _edge_modifier(rng, x):
     return x, ['extreme-first', 'extreme-last', 'plateau-start', 'plateau-end', 'sign-change-end', 'zero-start', 'zero-end', 'plain'][k]
 
 
-KINDS = ['generic', 'shape', 'tie', 'history', 'container', 'generic', 'tie', 'history', 'scale', 'edge', 'shape', 'history',
-         'extreme']
+KINDS = ['generic', 'shape', 'tie', 'history', 'container', 'generic', 'protocol', 'tie', 'history', 'scale', 'edge', 'shape',
+         'history', 'extreme', 'protocol']
 
 
 def gen_case(rng, idx):
     kind = KINDS[idx % len(KINDS)]
+    if kind == 'protocol':
+        return gen_protocol_case(rng)
     case = {'kind': kind, 'form': int(rng.integers(4)), 'layout': None, 'dt_form': ['float', 'float', 'np', 'int'][int(rng.integers(4))],
             'repeat': bool(rng.random() < 0.35), 'observe_obj': bool(rng.random() < 0.3)}
     if kind == 'tie':
@@ -1544,6 +1892,16 @@ def gen_case(rng, idx):
     if kind == 'container':
         c = ['f32', 'i64', 'list', 'tuple', 'i8', 'i16', 'i32', 'u8', 'u16', 'intlist', 'mixedlist', 'stride', 'reversed',
              'readonly'][int(rng.integers(14))]
+        special = None
+        r = rng.random()
+        if r < 0.12:         # silent record: valid input of the bracketed duration (nothing exceeds), premise false for the others
+            x = np.zeros(len(x))
+            special = 'silent'
+        elif r < 0.3:        # strictly one-signed: no zero, no sign change (integers 1..9 so that every container holds them)
+            x = (1.0 + np.round(8.0 * np.abs(x) / (np.max(np.abs(x)) or 1.0))) * float(rng.choice([-1.0, 1.0]))
+            special = 'one-signed'
+            if c in ('f32', 'list', 'tuple', 'stride', 'reversed', 'readonly') and rng.random() < 0.5:
+                x = x * float(rng.choice([0.37, 1e-3, 12.5]))
         case['cls'] = c
         if c == 'f32':
             x = np.asarray(x, dtype=np.float32)
@@ -1573,12 +1931,16 @@ def gen_case(rng, idx):
                 y[int(rng.integers(len(y)))] = info.min
             x = np.asarray(y, dtype=NARROW[c])
             case['cls'] = c + ('/full-range' if big else '/no-wrap')
+            if special:
+                case['cls'] = c
             case['factor'] = None
             case['k_scale'] = 0
         elif c in ('stride', 'reversed', 'readonly'):
             case['layout'] = c
         else:
             case['container'] = c
+        if special:
+            case['cls'] += '/' + special
     if kind == 'history':
         small = rng.random() < 0.45
         if small:
@@ -1599,6 +1961,17 @@ def gen_case(rng, idx):
             case['layout'] = ['stride', 'reversed', 'readonly'][int(rng.integers(3))]
     if case['dt_form'] == 'int' and rng.random() < 0.5 and kind in ('generic', 'edge'):
         dt = float(rng.choice([1.0, 2.0]))
+    if rng.random() < 0.25 and not case.get('brac_only'):
+        case['fracs'] = case['fracs'] + gen_edge_fracs(rng, x, case['fracs'])
+    if case['repeat'] and rng.random() < 0.6:
+        # f(A); f(B); f(A) with B another draw of the recipe: same shape or another shape, at the amplitude of A (item 25)
+        n = len(x)
+        m = int(rng.choice([n, n, max(1, n // 2), n + 1, 2 * n + 3, max(1, n - 1)]))
+        y = gen.record(rng, m)[0]
+        amp = float(np.max(np.abs(np.asarray(x, dtype=float)))) if len(x) else 0.0
+        case['other'] = y / (np.max(np.abs(y)) or 1.0) * (amp if amp > 0 and np.isfinite(amp) else 1.0)
+        case['repeat_j'] = int(rng.integers(0, 4))
+        case['repeat_se'] = bool(rng.random() < 0.5)
     case['dt'] = float(dt)
     case['values'] = x
     return case
@@ -1617,9 +1990,13 @@ def _case_digest(case):
     h = []
     for op in (case.get('history') or []) + [o for r in case.get('rounds') or [] for o in r]:
         h.append([op['op']] + [op[k] for k in sorted(op) if k != 'op'])
+    for st in case.get('steps') or []:
+        h.append([st['obj']])
+        for op in st['ops']:
+            h.append([op['op']] + [op[k] for k in sorted(op) if k != 'op'])
     return core.digest(np.asarray(case['values']), case['dt'], case['fracs'], case['thr_specs'], case.get('measures'),
                        case.get('k_scale'), case.get('factor'), case.get('k_pad'), case.get('container'), case.get('layout'),
-                       case.get('dt_form'), h)
+                       case.get('dt_form'), h, case.get('proto'), case.get('other'), case.get('repeat_j'), case.get('repeat_se'))
 
 
 EXH_FRACS = [(0.25, 0.75), (0.125, 0.5), (0.5, 0.9375)]
@@ -1656,7 +2033,9 @@ def _register(ctx, case):
                      'fracs': case['fracs'], 'thr_specs': case['thr_specs'], 'measures': case['measures'],
                      'k_scale': case['k_scale'], 'k_pad': case['k_pad'], 'layout': case.get('layout'),
                      'history': [o['op'] for o in case.get('history') or []],
-                     'rounds': [[o['op'] for o in r] for r in case.get('rounds') or []], 'head': x[:8]})
+                     'rounds': [[o['op'] for o in r] for r in case.get('rounds') or []], 'proto': case.get('proto'),
+                     'steps': [[st['obj'], st['kind']] + [_op_name(o) for o in st['ops']] for st in case.get('steps') or []],
+                     'other_n': None if case.get('other') is None else len(case['other']), 'head': x[:8]})
 
 
 def run_shard(ctx):
